@@ -7,8 +7,12 @@
 package c40
 
 import (
+	"encoding/binary"
 	"encoding/json"
 	"fmt"
+	"math"
+	"reflect"
+	"strconv"
 	"strings"
 	"time"
 
@@ -39,6 +43,8 @@ type Case struct {
 	MaxLen                 int    `json:"maxlen,omitempty"` // varchar/char length in characters (latin1/binary: bytes)
 	Bytes                  []int  `json:"bytes,omitempty"`
 	N                      int    `json:"n,omitempty"` // enum/set elements, bit width
+	Bits                   string `json:"bits,omitempty"` // float/double: IEEE bit pattern, decimal
+	JSON                   string `json:"json,omitempty"` // json: document text
 	Expect                 []int  `json:"expect"`      // canonical text (bytes) of the stored value as a MySQL replica shows it
 }
 
@@ -170,6 +176,16 @@ func mkType(c Case) (sql.Type, interface{}, querypb.Type, error) {
 		var v uint64
 		fmt.Sscan(c.I, &v)
 		return t, v, querypb.Type_BIT, err
+	case "float":
+		var b uint32
+		fmt.Sscan(c.Bits, &b)
+		return gmstypes.Float32, math.Float32frombits(b), querypb.Type_FLOAT32, nil
+	case "double":
+		var b uint64
+		fmt.Sscan(c.Bits, &b)
+		return gmstypes.Float64, math.Float64frombits(b), querypb.Type_FLOAT64, nil
+	case "json":
+		return gmstypes.JSON, c.JSON, querypb.Type_JSON, nil
 	}
 	return nil, nil, 0, fmt.Errorf("unknown type %q", c.T)
 }
@@ -195,6 +211,30 @@ func Run(raw json.RawMessage) (any, error) {
 		o.Data = append(o.Data, int(b))
 	}
 	o.Typ, o.Meta = int(bt), int(meta)
+	if c.T == "json" {
+		// second decoder: a Go port of MySQL's json_binary.cc parsing rules (below), compared structurally with
+		// the document; the vitess printer must also accept the bytes
+		o.Consumed = len(data)
+		var want interface{}
+		if err := json.Unmarshal([]byte(c.JSON), &want); err != nil {
+			return nil, err
+		}
+		if len(data) < 5 || int(binary.LittleEndian.Uint32(data))+4 != len(data) {
+			o.DecErr = "bad length prefix"
+			return o, nil
+		}
+		got, derr := parseJSON(data[4], data[5:])
+		if derr != nil {
+			o.DecErr = derr.Error()
+			return o, nil
+		}
+		if _, verr := mysql.ConvertBinaryJSONToSQL(data[4:]); verr != nil {
+			o.DecErr = "vitess: " + verr.Error()
+			return o, nil
+		}
+		o.Agree = reflect.DeepEqual(got, want)
+		return o, nil
+	}
 	// decode with padding after the cell so that an over-read shows up as a wrong length, not a panic
 	buf := append(append([]byte{}, data...), 0xEE, 0xEE, 0xEE, 0xEE, 0xEE, 0xEE, 0xEE, 0xEE)
 	v, n, derr := mysql.CellValue(buf, 0, bt, meta, q)
@@ -213,7 +253,141 @@ func Run(raw json.RawMessage) (any, error) {
 		o.DecB = append(o.DecB, int(b))
 	}
 	o.Agree = got == string(toBytes(c.Expect)) && n == len(data)
+	if c.T == "float" {
+		var b uint32
+		fmt.Sscan(c.Bits, &b)
+		f, perr := strconv.ParseFloat(o.Decoded, 32)
+		o.Agree = perr == nil && math.Float32bits(float32(f)) == b && n == len(data)
+	}
+	if c.T == "double" {
+		var b uint64
+		fmt.Sscan(c.Bits, &b)
+		f, perr := strconv.ParseFloat(o.Decoded, 64)
+		o.Agree = perr == nil && math.Float64bits(f) == b && n == len(data)
+	}
 	return o, nil
+}
+
+// ---- Go port of MySQL's JSON binary parsing (sql-common/json_binary.cc: parse_value / parse_array_or_object /
+// parse_scalar / read_variable_length), restricted to the types a document can contain ----
+func rd(d []byte, off, w int) (int, error) {
+	if off < 0 || off+w > len(d) {
+		return 0, fmt.Errorf("read past end")
+	}
+	v := 0
+	for i := w - 1; i >= 0; i-- {
+		v = v<<8 | int(d[off+i])
+	}
+	return v, nil
+}
+
+func parseJSON(t byte, d []byte) (interface{}, error) {
+	switch t {
+	case 4:
+		if len(d) < 1 {
+			return nil, fmt.Errorf("short literal")
+		}
+		switch d[0] {
+		case 0:
+			return nil, nil
+		case 1:
+			return true, nil
+		case 2:
+			return false, nil
+		}
+		return nil, fmt.Errorf("bad literal")
+	case 11:
+		if len(d) < 8 {
+			return nil, fmt.Errorf("short double")
+		}
+		return math.Float64frombits(binary.LittleEndian.Uint64(d)), nil
+	case 12:
+		l, n, shift := 0, 0, 0
+		for {
+			if n >= 5 || n >= len(d) {
+				return nil, fmt.Errorf("bad string length")
+			}
+			b := d[n]
+			l |= int(b&0x7f) << shift
+			n++
+			shift += 7
+			if b&0x80 == 0 {
+				break
+			}
+		}
+		if n+l > len(d) {
+			return nil, fmt.Errorf("string past end")
+		}
+		return string(d[n : n+l]), nil
+	case 0, 1, 2, 3:
+		large := t == 1 || t == 3
+		isObj := t == 0 || t == 1
+		w := 2
+		if large {
+			w = 4
+		}
+		count, err := rd(d, 0, w)
+		if err != nil {
+			return nil, err
+		}
+		size, err := rd(d, w, w)
+		if err != nil {
+			return nil, err
+		}
+		if size > len(d) {
+			return nil, fmt.Errorf("size past end")
+		}
+		kent := 0
+		if isObj {
+			kent = w + 2
+		}
+		hdr := 2*w + count*kent + count*(1+w)
+		if hdr > size {
+			return nil, fmt.Errorf("header past size")
+		}
+		body := d[:size]
+		value := func(i int) (interface{}, error) {
+			eoff := 2*w + count*kent + i*(1+w)
+			et := body[eoff]
+			if et == 4 {
+				return parseJSON(4, body[eoff+1:eoff+2])
+			}
+			off, _ := rd(body, eoff+1, w)
+			if off < hdr || off >= size {
+				return nil, fmt.Errorf("value offset out of range")
+			}
+			return parseJSON(et, body[off:])
+		}
+		if isObj {
+			m := map[string]interface{}{}
+			for i := 0; i < count; i++ {
+				koff, _ := rd(body, 2*w+i*kent, w)
+				klen, _ := rd(body, 2*w+i*kent+w, 2)
+				if koff < hdr || koff+klen > size {
+					return nil, fmt.Errorf("key out of range")
+				}
+				v, err := value(i)
+				if err != nil {
+					return nil, err
+				}
+				m[string(body[koff:koff+klen])] = v
+			}
+			if len(m) != count {
+				return nil, fmt.Errorf("duplicate keys after decoding")
+			}
+			return m, nil
+		}
+		a := make([]interface{}, 0, count)
+		for i := 0; i < count; i++ {
+			v, err := value(i)
+			if err != nil {
+				return nil, err
+			}
+			a = append(a, v)
+		}
+		return a, nil
+	}
+	return nil, fmt.Errorf("unknown type %d", t)
 }
 
 func normDecimal(s string) string {
